@@ -1,5 +1,8 @@
 import Chiritori.Lemmas.Pending
 import Chiritori.Lemmas.CollectAll
+import Chiritori.Lemmas.PendingCover
+import Chiritori.Lemmas.Laminar
+import Chiritori.Lemmas.Exact
 /-
   C17 — list_all = Ready regions + outstanding Pending regions, once each, in order.
 
@@ -11,8 +14,12 @@ import Chiritori.Lemmas.CollectAll
     * the two interleaved in source order (`items_sorted`, under the nesting hypothesis `Laminar`: a pending
       region that is not swallowed and starts before a ready region ends starts no later than that region).
   R and P are each sorted and disjoint (`regions_sorted`).
-  Not yet proved: that P covers exactly the extents of the pending elements (the analogue of C02/C03's coverage
-  theorem for the pending tree) and that `Laminar` always holds for the ranges the tree produces.
+  `pending_cover`: P covers exactly the extents of the pending elements (every source).
+  In the space the property quantifies over - no tag on a wrapper line of an unwrappable unwrap-block, `WrapFree`
+  (decidable form `wrapFreeB`) - `laminar_of_wrapFree` discharges the nesting hypothesis, `regions_exact` gives R
+  and P item by item (`refRegions`), and `c17` is the whole statement.  Outside that space the order clause is
+  false of the code (kernel-evaluated witness `srcBad`: a pending element starting on the opening wrapper line of
+  a ready unwrap-block is listed before the ready part it starts in); the property does not quantify over it.
 -/
 namespace Chiritori.Props.C17
 open Chiritori Chiritori.Spec
@@ -46,6 +53,25 @@ theorem regions_sorted (src ds de : List Char) (cfg : Cfg) (hde : de ≠ []) :
   have hg := collect_pending_geo cfg (bytesOf src) _ 0 (blen src) hspan (by simp)
   exact (mergeMarkers_spec _ 0 (blen src) [] 0 hg (by simp [MSorted])).1
 
+/-- the pending regions cover exactly the extents of the elements that are registered, not skipped and whose
+    condition does not hold (for an unwrap-block: its two parts; nothing when it cannot be unwrapped) -/
+theorem pending_cover (src ds de : List Char) (cfg : Cfg) (hde : de ≠ []) :
+    ∀ i, mcov (pendingMarkers src ds de cfg) i ↔
+      inAny (pendingExtents cfg (bytesOf src) (parseSource src ds de)) i = true := by
+  obtain ⟨hok, _⟩ := tokenize_ok src ds de hde
+  have hfl : flattenParts (parseSource src ds de) = tokenize src ds de := parse_flatten ds de _
+  have hspan : BSpan (flattenParts (parseSource src ds de)) 0 (blen src) := by
+    have := BSpan_of_chain _ 0 0 hok.chain
+    rw [hok.flatEq, Nat.zero_add] at this
+    rw [hfl]; exact this
+  have hg := collect_pending_geo cfg (bytesOf src) _ 0 (blen src) hspan (by simp)
+  have hc := collect_pending_cov cfg (bytesOf src) _ 0 (blen src) hspan (by simp)
+  obtain ⟨_, hm⟩ := mergeMarkers_spec _ 0 (blen src) [] 0 hg (by simp [MSorted])
+  intro i
+  unfold pendingMarkers
+  rw [hm i, hc i, pendingExtents_eq]
+  simp [mcov]
+
 /-- the Pending items: the pending regions not lying wholly inside a Ready region, in order -/
 theorem pending_items (src ds de : List Char) (cfg : Cfg) (hde : de ≠ []) :
     (listAllMarkers src ds de cfg).filter (fun x => !x.2) =
@@ -63,6 +89,121 @@ theorem items_sorted (src ds de : List Char) (cfg : Cfg) (hde : de ≠ [])
   obtain ⟨h1, h2⟩ := regions_sorted src ds de cfg hde
   rw [listAll_eq]
   exact mergePending_sorted _ _ 0 (blen src) 0 (blen src) 0 h1 h2 (Nat.le_refl _) (fun _ _ => Nat.zero_le _) hl
+
+/-- in a document without tags on wrapper lines (the C15 space) the two region lists are laminar -/
+theorem laminar_of_wrapFree (src ds de : List Char) (cfg : Cfg) (hde : de ≠ [])
+    (hw : WrapFree (bytesOf src) (parseSource src ds de)) :
+    Laminar (readyMarkers src ds de cfg) (pendingMarkers src ds de cfg) := by
+  obtain ⟨hok, _⟩ := tokenize_ok src ds de hde
+  have hfl : flattenParts (parseSource src ds de) = tokenize src ds de := parse_flatten ds de _
+  have hspan : BSpan (flattenParts (parseSource src ds de)) 0 (blen src) := by
+    have := BSpan_of_chain _ 0 0 hok.chain
+    rw [hok.flatEq, Nat.zero_add] at this
+    rw [hfl]; exact this
+  have hl := collect_lam cfg (bytesOf src) _ 0 (blen src) hspan (by simp) hw
+  rw [collect_ready_indep] at hl
+  intro r hr p hp h1 h2
+  have := hl (r.start, r.stop) (by simp only [rangesOf, List.mem_map]; exact ⟨r, hr, rfl⟩)
+    (p.start, p.stop) (by simp only [rangesOf, List.mem_map]; exact ⟨p, hp, rfl⟩) h1
+  apply this
+  intro hc
+  simp [squashes, hc.1, hc.2.1, hc.2.2.1, hc.2.2.2] at h2
+
+/-- C17, order clause: in such a document the items of the full listing appear in source order -/
+theorem items_sorted_wrapFree (src ds de : List Char) (cfg : Cfg) (hde : de ≠ [])
+    (hw : WrapFree (bytesOf src) (parseSource src ds de)) :
+    StartsSorted (listAllMarkers src ds de cfg) 0 :=
+  items_sorted src ds de cfg hde (laminar_of_wrapFree src ds de cfg hde hw)
+
+/-- item level: the two region lists are the reference regions of the ready / of the pending elements -/
+theorem regions_exact (src ds de : List Char) (cfg : Cfg) (hde : de ≠ [])
+    (hw : WrapFree (bytesOf src) (parseSource src ds de)) :
+    rangesOf (readyMarkers src ds de cfg) = refRegions (conditionHolds cfg) (bytesOf src) (parseSource src ds de) ∧
+    rangesOf (pendingMarkers src ds de cfg) = refRegions (conditionPending cfg) (bytesOf src) (parseSource src ds de) := by
+  obtain ⟨hok, _⟩ := tokenize_ok src ds de hde
+  have hfl : flattenParts (parseSource src ds de) = tokenize src ds de := parse_flatten ds de _
+  have hspan : BSpan (flattenParts (parseSource src ds de)) 0 (blen src) := by
+    have := BSpan_of_chain _ 0 0 hok.chain
+    rw [hok.flatEq, Nat.zero_add] at this
+    rw [hfl]; exact this
+  have h := collect_exact cfg (bytesOf src) _ 0 (blen src) hspan (by simp) hw
+  rw [collect_ready_indep] at h
+  exact h
+
+/-- C17 in the space it quantifies over (no tag on a wrapper line): the full listing is
+    (1) every Ready region exactly once - the plain list - flagged Ready;
+    (2) flagged Pending, every region of `pendingMarkers` that no Ready region swallows;
+    (3) where the Ready regions are the reference regions of the elements whose condition holds and
+        `pendingMarkers` those of the registered, non-skipped elements whose condition does not hold (nothing from
+        inside a default-strategy region of the same status; nothing for skip / unregistered / un-unwrappable);
+    (4) in source order. -/
+theorem c17 (src ds de : List Char) (cfg : Cfg) (hde : de ≠ [])
+    (hw : WrapFree (bytesOf src) (parseSource src ds de)) :
+    (listAllMarkers src ds de cfg).filter (·.2) = listMarkers src ds de cfg ∧
+    (listAllMarkers src ds de cfg).filter (fun x => !x.2) =
+      ((pendingMarkers src ds de cfg).filter fun p => !swallowed (readyMarkers src ds de cfg) p).map (fun p => (p, false)) ∧
+    rangesOf (readyMarkers src ds de cfg) = refRegions (conditionHolds cfg) (bytesOf src) (parseSource src ds de) ∧
+    rangesOf (pendingMarkers src ds de cfg) = refRegions (conditionPending cfg) (bytesOf src) (parseSource src ds de) ∧
+    StartsSorted (listAllMarkers src ds de cfg) 0 :=
+  ⟨ready_items src ds de cfg, pending_items src ds de cfg hde,
+   (regions_exact src ds de cfg hde hw).1, (regions_exact src ds de cfg hde hw).2,
+   items_sorted_wrapFree src ds de cfg hde hw⟩
+
+/-! ### the predicate the check evaluates on the implementation's output (`Spec.c17Holds`) is a theorem of the model -/
+
+theorem filter_map_items (L : List (Marker × Bool)) (q : Bool → Bool) :
+    ((L.map fun x => (x.1.start, x.1.stop, x.2)).filter (fun x => q x.2.2)).map (fun x => (x.1, x.2.1)) =
+      (L.filter (fun x => q x.2)).map (fun x => (x.1.start, x.1.stop)) := by
+  induction L with
+  | nil => rfl
+  | cons a as ih =>
+    simp only [List.map_cons, List.filter_cons]
+    cases q a.2 <;> simp [ih]
+
+theorem swallowed_eq (ready : List Marker) (p : Marker) :
+    swallowed ready p = swallowedBy (rangesOf ready) (p.start, p.stop) := by
+  simp only [swallowed, swallowedBy, rangesOf, List.any_map]
+  rfl
+
+theorem startsSortedB_of (L : List (Marker × Bool)) (lo : Nat) (h : StartsSorted L lo) :
+    startsSortedB (L.map fun x => (x.1.start, x.1.stop, x.2)) lo = true := by
+  induction L generalizing lo with
+  | nil => rfl
+  | cons a as ih =>
+    obtain ⟨h1, h2⟩ := h
+    simp only [List.map_cons, startsSortedB, Bool.and_eq_true, decide_eq_true_eq]
+    exact ⟨h1, ih _ h2⟩
+
+theorem c17Holds_model (src ds de : List Char) (cfg : Cfg) (hde : de ≠ [])
+    (hw : wrapFreeB (bytesOf src) (parseSource src ds de) = true) :
+    c17Holds src ds de cfg ((listAllMarkers src ds de cfg).map fun x => (x.1.start, x.1.stop, x.2)) = true := by
+  obtain ⟨h1, h2, h3, h4, h5⟩ := c17 src ds de cfg hde (wrapFreeB_sound _ _ hw)
+  unfold c17Holds
+  simp only [Bool.and_eq_true, beq_iff_eq]
+  refine ⟨⟨?_, ?_⟩, startsSortedB_of _ 0 h5⟩
+  · have := filter_map_items (listAllMarkers src ds de cfg) id
+    simp only [id] at this
+    rw [this, h1, ← h3]
+    simp [listMarkers, readyMarkers, rangesOf, List.map_map]
+  · have := filter_map_items (listAllMarkers src ds de cfg) (fun b => !b)
+    rw [this, h2, ← h3, ← h4]
+    simp only [List.map_map, rangesOf, List.filter_map]
+    congr 1
+    apply List.filter_congr
+    intro p _
+    simp only [Function.comp, swallowed_eq, rangesOf]
+
+/-- ... and the hypothesis is needed: with a pending element that starts on the opening wrapper line of a ready
+    unwrap-block and ends behind it, the pending item is listed *before* the ready part it starts in -/
+def cfgL : Cfg := ⟨"tl".toList, "rm".toList, 1577836800, 0, "+00:00".toList, ["a".toList]⟩
+def srcBad : List Char := "<rm name='a' unwrap-block>\n{ <rm name='b'>\nx\n</rm>\ny\n}\n</rm>\n".toList
+def srcGood : List Char := "<rm name='a' unwrap-block>\n{\n<rm name='b'>\nx\n</rm>\ny\n}\n</rm>\n<rm name='b'>\n<rm name='a'>\nz\n</rm>\n</rm>\n".toList
+example : wrapFreeB (bytesOf srcBad) (parseSource srcBad "<".toList ">".toList) = false := by decide +kernel
+example : (listAllMarkers srcBad "<".toList ">".toList cfgL).map (fun x => (x.1.start, x.2))
+    = [(29, false), (0, true), (53, true)] := by decide +kernel
+example : wrapFreeB (bytesOf srcGood) (parseSource srcGood "<".toList ">".toList) = true := by decide +kernel
+example : (listAllMarkers srcGood "<".toList ">".toList cfgL).map (fun x => (x.1.start, x.2))
+    = [(0, true), (29, false), (53, true), (61, false), (75, true)] := by decide +kernel
 
 /-- the general merge facts, for any two sorted lists (what the D12 repair restored) -/
 theorem merge_facts (ready pending : List Marker) (lo hi lo' hi' : Nat)
